@@ -253,7 +253,7 @@ def lookup(rep, c, byname):
 
 
 def access(rep, f, c, names):
-    r = rep.rule("C16.ACCESS", 4,
+    r = rep.rule("C16.ACCESS", 5,
                  "the validator's BUILTINS and the generator's loop use unicode_property_names(); the VM falls back "
                  "to unicode::by_name; no string-literal arm or template maps a property name to another "
                  "property's function; no advertised name collides with a hard-wired built-in")
@@ -268,6 +268,25 @@ def access(rep, f, c, names):
         if not ok:
             r.violation("validator", where(b["body"]) if b else "", "validator BUILTINS no longer includes "
                         "unicode_property_names(): advertised names are rejected as undefined rules")
+    # generator template for property built-ins: the emitted function and the unicode function it calls carry
+    # the same interpolated name
+    try:
+        from .. import synx
+        macros = synx.extract(["generator/src/generator.rs"])["generator/src/generator.rs"]
+        tm = [m for m in macros if m["macro"] == "quote" and m["fn"] == "generate_builtin_rules" and "unicode" in m.get("raw", "")]
+        r.instance("generator-template", "generator/src/generator.rs:%s" % (tm[0]["line"] if tm else "?"))
+        import re as _re
+        okt = False
+        if tm:
+            raw = tm[0]["raw"]
+            f1 = _re.search(r"fn\s*#\s*(\w+)", raw)
+            f2 = _re.search(r"pest\s*::\s*unicode\s*::\s*#\s*(\w+)", raw)
+            okt = bool(f1 and f2 and f1.group(1) == f2.group(1))
+        if not okt:
+            r.violation("generator-template", "generator/src/generator.rs", "the generated built-in for a Unicode "
+                        "property does not call the pest::unicode function of the same name")
+    except Exception as e:  # fail closed
+        r.violation("generator-template:extract", "generator/src/generator.rs", "template extraction failed: %s" % e)
     if gen is not None:
         b = gen.fn("pest_generator::generator::generate_builtin_rules")
         ok = b is not None and any(callee(x) == NAMESFN for x in walk(b["body"]) if kind(x) == "Call")
